@@ -750,6 +750,34 @@ pub fn generate(prop: &str, out: &mut Out, thorough: bool, seed: u64) -> bool {
             p.caps = if prop == "C07" && rng.chance(3, 4) { vec![crate::dec::QUERY_CAP] } else { gen_caps(&mut rng, repl, prop == "C06") };
             emit(out, &p, &props);
         }
+        // exact-fit regime: the destination of the first call ends exactly after the bytes of the k-th
+        // character (for several k), the rest of the text follows in the same source buffer
+        let fits = if thorough { 60 } else { 10 };
+        for i in 0..fits {
+            let utf16 = i % 2 == 0;
+            let units16 = gen_units(&mut rng, if i % 3 == 2 { 24 } else { 8 }, false);
+            if units16.is_empty() || prop == "C07" {
+                continue;
+            }
+            let text = String::from_utf16_lossy(&units16);
+            let mut cum = Vec::new();
+            let mut acc = 0usize;
+            for ch in text.chars() {
+                let mut b = [0u8; 4];
+                let (bytes, _, _) = e.encode(ch.encode_utf8(&mut b));
+                acc += bytes.len();
+                cum.push(acc);
+            }
+            let ks: Vec<usize> = if cum.len() <= 6 { (0..cum.len()).collect() } else { (0..6).map(|_| rng.below(cum.len())).collect() };
+            for k in ks {
+                for repl in [false, true] {
+                    let c0 = cum[k].max(min_cap(repl));
+                    let mut p = EPlan { enc: e, utf16, repl, units16: units16.clone(), cuts: vec![], caps: vec![c0, 1000, 1000, 1000, 1000, 1000, 1000, 1000] };
+                    p.cuts = vec![p.src_len()];
+                    emit(out, &p, &props);
+                }
+            }
+        }
         // bulk / fast-path regime: an ASCII run around a stride boundary, one non-ASCII character
         // (mappable, unmappable, astral, U+0080, a pair ending in DFFF), a short tail; capacities around the run length
         let runs: &[usize] = if thorough { &[7, 8, 15, 16, 17, 23, 24, 31, 32, 33, 40, 47, 48, 63, 64, 65, 127, 128, 129] } else { &[15, 16, 17, 31, 32, 33, 40, 47, 48, 63, 64, 65] };
